@@ -25,6 +25,7 @@ import (
 	"github.com/hydraide/hydraide/app/verifhook"
 	hydrapb "github.com/hydraide/hydraide/sdk/go/hydraidego/v3/hydraidepbgo"
 	"google.golang.org/grpc/metadata"
+	"google.golang.org/protobuf/types/known/timestamppb"
 	"verif/harness/common"
 	"verif/harness/rig"
 )
@@ -119,6 +120,7 @@ type wop struct {
 	Status string `json:"status"`         // reported by the engine
 	Val    int64  `json:"val"`            // value after the op / removed value
 	Batch  int    `json:"batch,omitempty"` // consecutive sets with the same non-zero id go into ONE Set request
+	Meta   int    `json:"meta,omitempty"`  // client-supplied metadata sent with the write (bits: 1 CreatedAt, 2 UpdatedAt past, 4 UpdatedAt future, 8 ExpiredAt, 16 CreatedBy, 32 UpdatedBy; incr: server-side SetIfExist/SetIfNotExist)
 }
 
 type phase struct {
@@ -136,6 +138,8 @@ type ccase struct {
 	NKeys   int     `json:"nkeys"`
 	Pattern string  `json:"pattern"` // c19p: write interval 1 s; c19w: write-through (0); c19m: in-memory; c19i: idle close 1 s
 	Noops   bool    `json:"noop_saves"`
+	Meta    bool    `json:"client_metadata"` // writes carry CreatedAt/UpdatedAt/ExpiredAt/CreatedBy/UpdatedBy that are not "now"
+	SummonRace string `json:"summon_race,omitempty"` // hook-driven schedule: a summon of the swamp (not in memory) is held at this site while a client subscribes
 	StopRace bool   `json:"stop_race,omitempty"` // hook-driven schedule: an unsubscribe is held at StopSendingEvents while another client subscribes
 	Phases  []phase `json:"phases"`
 	history []string
@@ -157,6 +161,13 @@ func genCase(r *common.Rng, corpusKind int) *ccase {
 		c.Pattern = "c19m"
 	default:
 		c.Pattern = "c19i"
+	}
+	c.Meta = r.Chance(40)
+	meta := func() int {
+		if !c.Meta || !r.Chance(50) {
+			return 0
+		}
+		return 1 + r.Intn(63)
 	}
 	np := 2 + r.Intn(5)
 	subscribed := make([]bool, c.NSubs)
@@ -198,8 +209,8 @@ func genCase(r *common.Rng, corpusKind int) *ccase {
 			for w := 0; w < nw; w++ {
 				n := 1 + r.Intn(5)
 				for j := 0; j < n; j++ {
-					uniq++
-					ph.Writers[w] = append(ph.Writers[w], wop{Kind: "set", Key: ph.Shared[r.Intn(len(ph.Shared))], Req: uniq})
+					uniq += 1000 // far apart: increments of a winning value never collide with a later unique value
+					ph.Writers[w] = append(ph.Writers[w], wop{Kind: "set", Key: ph.Shared[r.Intn(len(ph.Shared))], Req: uniq, Meta: meta()})
 				}
 			}
 			c.Phases = append(c.Phases, ph)
@@ -225,12 +236,13 @@ func genCase(r *common.Rng, corpusKind int) *ccase {
 				case x < 45:
 					o.Kind, o.Req = "set", int64(r.Intn(1000))
 					o.Noop = c.Noops && r.Chance(35)
+					o.Meta = meta()
 				case x < 55:
 					// one Set request with several key/value pairs (a key may occur twice)
 					batch++
 					m := 2 + r.Intn(3)
 					for i := 0; i < m; i++ {
-						ph.Writers[w] = append(ph.Writers[w], wop{Kind: "set", Key: own[r.Intn(len(own))], Req: int64(r.Intn(1000)), Batch: batch})
+						ph.Writers[w] = append(ph.Writers[w], wop{Kind: "set", Key: own[r.Intn(len(own))], Req: int64(r.Intn(1000)), Batch: batch, Meta: meta()})
 					}
 					continue
 				case x < 70:
@@ -239,6 +251,7 @@ func genCase(r *common.Rng, corpusKind int) *ccase {
 					o.Kind = "shift"
 				default:
 					o.Kind, o.Req = "incr", int64(1+r.Intn(9))
+					o.Meta = meta()
 				}
 				ph.Writers[w] = append(ph.Writers[w], o)
 			}
@@ -282,6 +295,10 @@ func corpus() []*ccase {
 	// hook-driven schedules around StopSendingEvents (run one at a time)
 	for i := 0; i < 4; i++ {
 		cs = append(cs, &ccase{Kind: "corpus-stop-race", Pattern: []string{"c19p", "c19m", "c19w", "c19p"}[i], NSubs: 3, NKeys: 2, StopRace: true})
+	}
+	// hook-driven schedules: a client subscribes while another request is summoning the swamp
+	for _, site := range []string{"summon.create", "summon.store", "summon.stored", "summon.create"} {
+		cs = append(cs, &ccase{Kind: "corpus-summon-race", Pattern: "c19i", NSubs: 1, NKeys: 2, SummonRace: site})
 	}
 	return cs
 }
@@ -327,9 +344,11 @@ func (r *runner) settle(n int) {
 	}
 }
 
-func (r *runner) settleActive() {
+func (r *runner) settleActive() { r.settleActiveWithin(30 * time.Second) }
+
+func (r *runner) settleActiveWithin(d time.Duration) {
 	hy, sname := r.srv.Zeus.GetHydra(), rig.Name(r.swamp)
-	dl := time.Now().Add(30 * time.Second)
+	dl := time.Now().Add(d)
 	for {
 		loaded, active := hydra.VerifEventSendingState(hy, sname)
 		if !loaded || active {
@@ -412,6 +431,35 @@ func (r *runner) churn(ph phase) {
 	}
 }
 
+// key/value pair of a set, with the client-supplied metadata of the operation: instants that are
+// NOT the time of the write (imports with historical times, skewed client clocks)
+func kvp(o *wop) *hydrapb.KeyValuePair {
+	v := o.Req
+	kv := &hydrapb.KeyValuePair{Key: kname(o.Key), Int64Val: &v}
+	day := int64(86400)
+	if o.Meta&1 != 0 {
+		kv.CreatedAt = timestamppb.New(time.Unix(1546300800+day*(o.Req%300), 7)) // 2019
+	}
+	if o.Meta&2 != 0 {
+		kv.UpdatedAt = timestamppb.New(time.Unix(1577836800+day*(o.Req%300), 11)) // 2020
+	}
+	if o.Meta&4 != 0 {
+		kv.UpdatedAt = timestamppb.New(time.Unix(1924992000+day*(o.Req%300), 13)) // 2031
+	}
+	if o.Meta&8 != 0 {
+		kv.ExpiredAt = timestamppb.New(time.Unix(1956528000+day*(o.Req%300), 0)) // 2032
+	}
+	if o.Meta&16 != 0 {
+		by := fmt.Sprintf("creator%d", o.Req%3)
+		kv.CreatedBy = &by
+	}
+	if o.Meta&32 != 0 {
+		by := fmt.Sprintf("updater%d", o.Req%3)
+		kv.UpdatedBy = &by
+	}
+	return kv
+}
+
 func (r *runner) setReq(kvs []*hydrapb.KeyValuePair) ([]string, bool) {
 	resp, err := r.srv.GW.Set(context.Background(), &hydrapb.SetRequest{Swamps: []*hydrapb.SwampRequest{{
 		IslandID: island, SwampName: r.swamp, CreateIfNotExist: true, Overwrite: true, KeyValues: kvs}}})
@@ -463,8 +511,7 @@ func (r *runner) write(ops []wop, shared bool) {
 						b.Req = v + 1
 					}
 					sim[b.Key], simHas[b.Key] = b.Req, true
-					val := b.Req
-					kvs = append(kvs, &hydrapb.KeyValuePair{Key: kname(b.Key), Int64Val: &val})
+					kvs = append(kvs, kvp(b))
 				}
 				st, ok := r.setReq(kvs)
 				for i := j; i < end; i++ {
@@ -488,8 +535,11 @@ func (r *runner) write(ops []wop, shared bool) {
 					}
 				}
 			}
+			if o.Noop {
+				o.Meta = 0 // a save that changes nothing sends the value only
+			}
 			v := o.Req
-			st, ok := r.setReq([]*hydrapb.KeyValuePair{{Key: kname(o.Key), Int64Val: &v}})
+			st, ok := r.setReq([]*hydrapb.KeyValuePair{kvp(o)})
 			if !ok {
 				o.Status = "ERROR"
 				continue
@@ -528,7 +578,16 @@ func (r *runner) write(ops []wop, shared bool) {
 				o.Status = "NOT_FOUND"
 			}
 		case "incr":
-			resp, err := r.srv.GW.IncrementInt64(ctx, &hydrapb.IncrementInt64Request{IslandID: island, SwampName: r.swamp, Key: kname(o.Key), IncrementBy: o.Req})
+			req := &hydrapb.IncrementInt64Request{IslandID: island, SwampName: r.swamp, Key: kname(o.Key), IncrementBy: o.Req}
+			if o.Meta != 0 {
+				yes, by := true, "incr"
+				req.SetIfNotExist = &hydrapb.IncrementRequestMetadata{CreatedAt: &yes, CreatedBy: &by}
+				req.SetIfExist = &hydrapb.IncrementRequestMetadata{UpdatedAt: &yes, UpdatedBy: &by}
+				if o.Meta&8 != 0 {
+					req.SetIfExist.ExpiredAt = timestamppb.New(time.Unix(1956528000, 0))
+				}
+			}
+			resp, err := r.srv.GW.IncrementInt64(ctx, req)
 			if err != nil || !resp.GetIsIncremented() {
 				o.Status = "ERROR"
 				continue
@@ -650,7 +709,20 @@ func runCase(srv *rig.Server, ci int, c *ccase) {
 			time.Sleep(3300 * time.Millisecond) // CloseAfterIdle 1 s + 1 s gap, checked every second
 			c.history = append(c.history, "CUnload")
 		}
-		r.churn(*ph)
+		if ph.Pre == "idle" && len(ph.Sub) > 0 {
+			// the swamp is (most likely) out of memory: let a read summon it while the clients subscribe
+			summoned := make(chan struct{})
+			go func() {
+				_, _ = srv.GW.Get(ctx, &hydrapb.GetRequest{Swamps: []*hydrapb.GetSwamp{{
+					IslandID: island, SwampName: r.swamp, Keys: []string{kname(0)}}}})
+				close(summoned)
+			}()
+			r.churn(*ph)
+			<-summoned
+			r.settleActiveWithin(2 * time.Second)
+		} else {
+			r.churn(*ph)
+		}
 		if c.lost != "" {
 			c.Phases = c.Phases[:i+1]
 			for w := range ph.Writers {
@@ -666,6 +738,86 @@ func runCase(srv *rig.Server, ci int, c *ccase) {
 		for s := range c.recv {
 			c.recv[s] = nil
 		}
+	}
+}
+
+// hook-driven schedules: the swamp exists on disk but is not in memory (idle close).  A read
+// summons it and is held at a point inside SummonSwamp while client 0 subscribes completely; then
+// the summon continues.  Every later change must reach the client, whichever side saw the other.
+func runSummonRaces(srv *rig.Server, cases []*ccase) {
+	var rs []*runner
+	var cs []*ccase
+	set := func(k int, v int64) wop { return wop{Kind: "set", Key: k, Req: v} }
+	for i, c := range cases {
+		if c.SummonRace == "" {
+			continue
+		}
+		r := newRunner(srv, i, c)
+		ph := phase{Writers: [][]wop{{set(0, 1), set(1, 2)}}}
+		r.runWriters(&ph)
+		c.Phases = append(c.Phases, ph)
+		rs, cs = append(rs, r), append(cs, c)
+	}
+	if len(rs) == 0 {
+		return
+	}
+	hy := srv.Zeus.GetHydra()
+	dl := time.Now().Add(12 * time.Second) // idle close: 1 s + 1 s gap, checked every second
+	for _, r := range rs {
+		for {
+			loaded, _ := hydra.VerifEventSendingState(hy, rig.Name(r.swamp))
+			if !loaded || time.Now().After(dl) {
+				break
+			}
+			time.Sleep(20 * time.Millisecond)
+		}
+	}
+	for x, r := range rs {
+		c := cs[x]
+		if loaded, _ := hydra.VerifEventSendingState(hy, rig.Name(r.swamp)); loaded {
+			c.Kind += "-not-evicted" // the schedule degenerates to the sequential one
+		}
+		c.history = append(c.history, "CUnload")
+		reached := make(chan struct{}, 1)
+		release := make(chan struct{})
+		var once sync.Once
+		site := c.SummonRace
+		verifhook.Install(func(at string, _ int64, _ []int64) {
+			if at == site {
+				hold := false
+				once.Do(func() { hold = true })
+				if hold {
+					reached <- struct{}{}
+					<-release
+				}
+			}
+		})
+		done := make(chan struct{})
+		go func() {
+			_, _ = srv.GW.Get(context.Background(), &hydrapb.GetRequest{Swamps: []*hydrapb.GetSwamp{{
+				IslandID: island, SwampName: r.swamp, Keys: []string{kname(0)}}}})
+			close(done)
+		}()
+		select {
+		case <-reached:
+			c.Kind += "-held"
+		case <-done:
+		case <-time.After(5 * time.Second):
+			r.errf("summon neither finished nor reached %s", site)
+		}
+		r.startSub(0)
+		r.nsubbed++
+		r.settle(r.nsubbed)
+		r.settleActiveWithin(time.Second)
+		c.history = append(c.history, "CSub 0")
+		close(release)
+		<-done
+		verifhook.Install(nil)
+		r.settleActiveWithin(2 * time.Second)
+		ph := phase{Writers: [][]wop{{set(0, 3), set(1, 4), {Kind: "delete", Key: 0}, set(0, 8)}}}
+		r.runWriters(&ph)
+		c.Phases = append(c.Phases, ph)
+		r.finish()
 	}
 }
 
@@ -785,7 +937,7 @@ func main() {
 	args := common.ParseArgs()
 	rig.Quiet()
 	run := common.NewRun(args, "C19", "HV.Swamp.Events")
-	run.Shard = 100
+	run.Shard = 50
 	run.Meta.Rule = "non-trivial: at least one subscriber received an event, and the history contains a write outside a subscription window, a no-op save, a delete/shift, or two writers running concurrently"
 	root, err := os.MkdirTemp("", "c19-")
 	if err != nil {
@@ -808,10 +960,11 @@ func main() {
 		cases = append(cases, genCase(rng.Fork("case"), 0))
 	}
 	common.Parallel(len(cases), 8, func(i int) {
-		if !cases[i].StopRace {
+		if !cases[i].StopRace && cases[i].SummonRace == "" {
 			runCase(srv, i, cases[i])
 		}
 	})
+	runSummonRaces(srv, cases)
 	for i, c := range cases { // the hook controller is process-wide: one at a time
 		if c.StopRace {
 			runStopRace(srv, i, c)
